@@ -212,6 +212,10 @@ class Unblock1014(object):
             if not block:  # eof
                 break
             self.buffer += block[:1012]
+        if read_all:  # no size requested - return everything that remains
+            output = self.buffer
+            self.buffer = b''
+            return output
         output = self.buffer[:bytes_to_read]
         self.buffer = self.buffer[bytes_to_read:]
         return output
